@@ -5,6 +5,7 @@ pub mod corpus;
 pub mod history;
 pub mod io;
 pub mod monitors;
+pub mod node;
 pub mod panics;
 pub mod props;
 pub mod report;
